@@ -887,6 +887,7 @@ def _header_entry(name, values, repeatable):
     def build(names, vals, rep):
         n = rep if repeatable else 1
         return [[names[i % len(names)], vals[i % len(vals)]] for i in range(n)]
+    values = g.weighted((12, values), (1, st.just('')))  # an empty field-value is legal for every header
     return st.builds(build, st.lists(g.cased(name), min_size=1, max_size=3), st.lists(values, min_size=1, max_size=3),
                      st.sampled_from([1, 1, 1, 2, 2, 3]))
 
@@ -1187,7 +1188,7 @@ class WsgiAsgi(Suite):
     HTTPStatus, 5 redirect classes, an unhandled application exception."""
 
     name = 'wsgi_asgi'
-    budget = {'quick': 4000, 'thorough': 120000}
+    budget = {'quick': 4000, 'thorough': 100000}
 
     def strategy(self, tier):
         return _requests(False)
@@ -1211,7 +1212,7 @@ class Client(Suite):
     driver runs are also compared with each other."""
 
     name = 'client'
-    budget = {'quick': 1600, 'thorough': 40000}
+    budget = {'quick': 1600, 'thorough': 30000}
 
     def strategy(self, tier):
         return _requests(True)
